@@ -16,11 +16,12 @@ import corerun
 
 # which generator profile and how many programs per tier
 PROFILE = {
-    "C01": dict(kinds=None, quick=260, thorough=4000),
+    "C01": dict(kinds=None, quick=260, thorough=4000,
+                modes=["random", "random", "multiready", "multiready", "churn", "regchurn", "erronly", "timers", "tasks", "events"]),
     "C02": dict(kinds=("fd", "tk", "tm"), quick=300, thorough=5000,
-                modes=["random", "multiready", "multiready", "churn", "churn", "regchurn", "regchurn"], nfd=4),
+                modes=["random", "multiready", "multiready", "churn", "churn", "regchurn", "regchurn", "erronly"], nfd=4),
     "C03": dict(kinds=("fd", "tk", "ev"), quick=300, thorough=5000,
-                modes=["random", "multiready", "multiready", "churn", "regchurn", "regchurn", "regchurn"], nfd=4),
+                modes=["random", "multiready", "multiready", "churn", "regchurn", "regchurn", "regchurn", "erronly"], nfd=4),
     "C04": dict(kinds=("tm", "fd", "tk"), quick=300, thorough=5000,
                 modes=["random", "timers", "timers", "timers", "heap", "heap", "tasks"]),
     "C05": dict(kinds=("tm", "tk"), quick=300, thorough=5000, modes=["random", "timers", "heap", "heap", "heap"]),
